@@ -12,15 +12,18 @@ EXTENDS Compose
 Cases == ndJsonDeserialize(IOEnv.CASES)
 VARIABLE tid
 
+Devs(isa) == IF isa = "x86" THEN {"InPlaceRowExtension"} ELSE AllDevs
 Verdict(c) ==
   LET m == c.model
       k0 == Follow(m, c.kernel, c.obs, {})
+      Good(n) == {D \in SUBSET Devs(m.isa) : Cardinality(D) = n /\ Follow(m, c.kernel, c.obs, D) = 0}
+      Pick1(S) == CHOOSE X \in S : TRUE
   IN IF k0 = 0 THEN <<"ok", {}, 0>>
-     ELSE LET good == {D \in (SUBSET AllDevs) \ {{}} : Follow(m, c.kernel, c.obs, D) = 0} IN
-          IF good # {}
-            THEN LET D == CHOOSE X \in good : \A Y \in good : Cardinality(X) <= Cardinality(Y)
-                 IN <<"dev", D, k0>>
-            ELSE <<FieldClause(m, c.kernel, c.obs, k0), {}, k0>>
+     ELSE IF Good(1) # {} THEN <<"dev", Pick1(Good(1)), k0>>
+     ELSE IF Good(2) # {} THEN <<"dev", Pick1(Good(2)), k0>>
+     ELSE IF Good(3) # {} THEN <<"dev", Pick1(Good(3)), k0>>
+     ELSE IF Good(4) # {} THEN <<"dev", Pick1(Good(4)), k0>>
+     ELSE <<FieldClause(m, c.kernel, c.obs, k0), {}, k0>>
 Check == LET c == Cases[tid] v == Verdict(c) IN
          IF v[1] = "ok" THEN TRUE ELSE PrintT(<<"REJECT", c.id, v[1], v[2], v[3]>>)
 TraceInit == tid = 1
